@@ -65,7 +65,8 @@ pub fn run(report: &Report, thorough: bool) -> Evidence {
     }
     words.push("sesh".into());
     words.push("ami".into());
-    let wraps: Vec<(&str, &str)> = vec![("", ""), ("(", ")"), ("\"", "\""), ("'", "'"), ("", "."), ("", "?!")];
+    // (the last wrapping is a literal colon after the word, typed as colon + back-tick)
+    let wraps: Vec<(&str, &str)> = vec![("", ""), ("(", ")"), ("\"", "\""), ("'", "'"), ("", "."), ("", "?!"), ("", ":`")];
     let suffixes = ["er", "ke", "gulo", "ra", "te", "e", "r", "i", "o"];
     // (english, smart)
     let cfgs: Vec<(bool, bool)> = if thorough { vec![(false, true), (true, true), (true, false), (false, false)] } else { vec![(true, true), (false, false)] };
